@@ -1,6 +1,7 @@
 """Per-property metadata used by ./check for evidence files and MANIFEST.json."""
 
 HOOK_COMMITS = []
+FIX_COMMITS = ['0a1810c', 'a823fe8', '611b765', '43d434c', 'bd77cd5']
 
 REAL = ["nhooyr.io/websocket (all non-js code, both endpoints where libpair)", "bufio", "compress/flate", "context", "time (fake clock from testing/synctest)"]
 STUB = ["transport (simrt.simnet)", "handshake plumbing (fake RoundTripper / hijacker, no bytes on the wire)"]
@@ -22,6 +23,25 @@ META = {
         design_ref="DESIGN.md 6 C01",
         rule="run = one tape: (client mode, server mode, thresholds, message lists per direction with sizes biased to 0/1/125/126/127/thresholds+-1/4095-4097/8191-8193/32767-32769/65535-65537 and >=1 MiB in ~4% of runs, Write or chunked Writer, reader API and buffer size, pipe capacity, chunk policies, scheduler stickiness, every scheduling choice). Non-trivial = at least one message written and read back; distinct = distinct SHA-256 of the full event log (scheduler picks with simulated time + per-actor results).",
         real=REAL, stub=STUB, assumptions=COMMON_ASSUME,
+    ),
+    "C03": dict(
+        level="exploration",
+        level_text="Seeded simulation of one real endpoint (either role, every negotiated takeover combination) fed by a scripted raw peer with generated frame scripts (valid, with 0-2 injected violations, mutated and noise byte strings) delivered in transport chunks down to one byte; reads, pongs, close echo and failure point are compared with an independent RFC 6455/7692 reference decoder. Panics anywhere are caught. Sampling, not proof.",
+        level_note="Trusts compress/flate as DEFLATE engine and the reference decoder /verif/sim/wsref; content decoded from malformed DEFLATE, UTF-8 validity and non-minimal length encodings are excluded as the property says.",
+        technique="deterministic simulation: scripted raw peer + simulated transport chunking, reference-decoder oracle",
+        design_ref="DESIGN.md 6 C03",
+        rule="run = one tape: (role, library mode, negotiated extension parameters, read limit, script of 1-6 items: data messages with fragmentation plans incl. empty fragments, compressed with takeover/no takeover, BFINAL endings, flush points; interleaved Ping/Pong; 0-2 violations from 13 kinds at drawn positions; Close / EOF ending; 12% raw mutated/noise streams; reader API and buffer size or CloseRead; transport chunk policy; schedule). Non-trivial = non-empty inbound stream; distinct = distinct event-log SHA-256.",
+        real=REAL, stub=STUB + RAW, assumptions=COMMON_ASSUME,
+    ),
+    "C04": dict(
+        level="fault_enumeration",
+        level_text="For each enumerated script (small multi-message, multi-fragment, compressed and uncompressed streams, both roles) the transport is ended at EVERY byte offset 0..len(stream), with both EOF and a reset-like error, for 9 reader APIs/buffer sizes and two transport chunkings; the reference decoder over the delivered prefix says which messages are complete and what the cut message's true payload is. Larger scripts (up to ~600 KiB, crossing bufio and flate-window boundaries) are sampled with offsets biased to headers, fragment boundaries, frame tails and 4096 multiples. The cut-offset dimension of the enumerated scripts is exhaustive; scripts themselves are sampled.",
+        level_note="Trusts the reference decoder and compress/flate; clean end = bare io.EOF sentinel from a message reader or a nil error from Read/wsjson.Read.",
+        technique="deterministic simulation with exhaustive fault placement (transport cut at every byte offset), reference-decoder oracle",
+        design_ref="DESIGN.md 6 C04",
+        rule="enumerated part: forced tape prefix (script seed, cut offset k, EOF|reset, reader API in {Reader buf 1,2,3,5,64,4096; Read; NetConn.Read; wsjson.Read}, chunking all|1-byte) for every k of every enumerated script; random part: large scripts with biased offsets. Non-trivial = every run (a cut is always placed); distinct = distinct event-log SHA-256.",
+        exhaustive="cut offset 0..len(stream) x {EOF, reset} x 9 reader APIs x 2 chunkings, for each enumerated script",
+        real=REAL, stub=STUB + RAW, assumptions=COMMON_ASSUME,
     ),
 }
 
